@@ -65,6 +65,30 @@ func main() {
 		}
 		cleanupScratch()
 		os.Exit(rc)
+	case "replayable":
+		p, err := LoadProgram(repoDir())
+		if err != nil {
+			fmt.Println("load error:", err)
+			os.Exit(2)
+		}
+		for _, k := range sortedContractKeys(p.Specs.Contracts) {
+			if fc := p.Specs.Contracts[k]; !fc.Trusted && !fc.Inline && autoReplayable(p.Funcs[k]) {
+				fmt.Println(k, fc.Props)
+			} else if fn := p.Funcs[k]; fn != nil && os.Getenv("GOCV_WHY") != "" {
+				var bad []string
+				for _, prm := range fn.Params {
+					if !rpSupported(prm.Type(), fn.Pkg.Pkg, 0, false) {
+						bad = append(bad, prm.Name()+" "+typeString(prm.Type()))
+					}
+				}
+				for i := 0; i < fn.Signature.Results().Len(); i++ {
+					if !rpSupported(fn.Signature.Results().At(i).Type(), fn.Pkg.Pkg, 0, true) {
+						bad = append(bad, "result "+typeString(fn.Signature.Results().At(i).Type()))
+					}
+				}
+				fmt.Println("  --", k, bad)
+			}
+		}
 	case "entrypoints":
 		p, err := LoadProgram(repoDir())
 		if err != nil {
